@@ -272,6 +272,16 @@ def gen(t, prop, tier):
                 check_prob=t.choice([0.0, 0.0, 0.05]), repeat=int(t.bool(0.15)), hashseed=t.int(1, 100000), hashseed2=t.int(1, 100000))
 
 
+def _sched_faults(sc):
+    """the schedule perturbations of this run, reported as the injected 'fault' kinds"""
+    k = sc.get('kind')
+    if k == 'sim':
+        return {'simulated_schedule_' + str(sc.get('policy', 'mixed')): 1}
+    if k == 'omp' and int(sc.get('threads', 1)) > 1:
+        return {'real_openmp_threads': 1}
+    return {}
+
+
 def sig_of(sc):
     return dict(problem=sc.get('problem'), nnps=sc.get('nnps'), kind=sc.get('kind'), cache=bool(sc.get('cache')),
                 sort_gids=bool(sc.get('sort_gids')), reorder=bool(sc.get('reorder')), valid_gids=bool(sc.get('valid_gids')))
@@ -408,5 +418,5 @@ def execute(sc, prop):
                 violate('not-reproducible', 'the same options twice: %s' % d2)
     nontrivial = not (sc.get('nnps') == 'll' and kind == 'serial' and not sc.get('cache') and not sc.get('reorder'))
     return dict(violations=viol, digest=digest(repr(sorted((k, str(v)) for k, v in sc.items() if k != 'repeat'))),
-                nontrivial=nontrivial, faults={}, probes=probes, sim=float(nruns), inconclusive=False,
+                nontrivial=nontrivial, faults=_sched_faults(sc), probes=probes, sim=float(nruns), inconclusive=False,
                 stratum='%s/%s/%s' % (problem, sc.get('nnps'), kind))
